@@ -31,7 +31,7 @@ ASSUMPTIONS = ['documented behaviour: non-str arguments raise TypeError (not gen
                'step budget: token deliveries + error-handler calls <= 6*len(text)+60 per parse']
 BUDGET_S = {'quick': 55, 'thorough': 1500}
 REQUIRED_HITS = ['parse', 'lexer_iter', 'message_position_checked', 'step_hook', 'blowup_probe', 'shape', 'identifier_escape']
-FLOOR = {'quick': 20000, 'thorough': 300000}
+FLOOR = {'quick': 20000, 'thorough': 150000}
 
 CHAR_ALPHABET = list('ab1.0xe"\'\\/*(){}[];,:?=+-<>!&|~^% \n\r\t_$') + ['\u2028', '\ufeff', '\xe9', '\u0660', '\u0301', '\u203f']
 
